@@ -151,7 +151,7 @@ PROPS = {
         "needs_bin": True,
         "quick": cfg(16, 60, timeout_factor=6),
         "thorough": cfg(16, 900, timeout_factor=3),
-        "rule": "websocket sessions against the real `adlt remote` binary (one server per worker, restarted every 8 sessions with a different pacing: parser pause 5-45 us per message or channel capacity 1/2/16 through hook H4): histories of 5-60 commands drawn from a grammar over open (small file, 150 000-message file = parsing in progress, zip archive, text file named .zip, truncated zip; 1/5 with plugin settings: valid, unknown plugin, wrong typed or unreadable directories; 1/6 of the sessions start with a script: open 200-500 copies of the repository's lc_ex002.zip plus a 30 MB archive, create a stream at once and use its id in well-formed and malformed id commands, so that they arrive while the archives are still being extracted; 1/8 of the other sessions start with open, pause, 2-4 queries (or a stream), resume, so that several queries end in the same server round)/close/pause/resume/stream/query/stop/stream_change_window/stream_binary_search/stream_search/plugin_cmd/fs (now and then padded to 17-20 MiB in one websocket frame; stat/readDirectory/unknown sub-commands on directories and on archive paths `<archive>!/<path within>` of a valid zip, a text file named .zip and a truncated zip) with live, stale, foreign and malformed ids, missing arguments, broken JSON, wrong JSON types, empty and unknown commands. Client-side session model {file open, live stream ids, live query ids}; after each command exactly one reply frame (ok:/err: naming the command, or the unknown-command notice) within 60 s, replies agree with the model where it is determinate, a final 500 ms quiet period contains no reply, the process is alive and its stderr has no panic. Non-trivial = history with >=1 malformed and >=1 stateful command; distinct = de-duplicated command-kind sequence.",
+        "rule": "websocket sessions against the real `adlt remote` binary (one server per worker, restarted every 8 sessions with a different pacing: parser pause 5-45 us per message or channel capacity 1/2/16 through hook H4): histories of 5-60 commands drawn from a grammar over open (small file, 150 000-message file = parsing in progress, zip archive, text file named .zip, truncated zip; 1/5 with plugin settings: valid, unknown plugin, wrong typed or unreadable directories; 1/6 of the sessions start with a script: open 200-500 copies of the repository's lc_ex002.zip plus a 30 MB archive, create a stream at once and use its id in well-formed and malformed id commands, so that they arrive while the archives are still being extracted; 1/8 of the other sessions start with open, pause, 2-4 queries (or a stream), resume, so that several queries end in the same server round; 1/10 with 2-3 active plugins of the same name followed by plugin_cmd for that name)/close/pause/resume/stream/query/stop/stream_change_window/stream_binary_search/stream_search/plugin_cmd/fs (now and then padded to 17-20 MiB in one websocket frame; stat/readDirectory/unknown sub-commands on directories and on archive paths `<archive>!/<path within>` of a valid zip, a text file named .zip and a truncated zip) with live, stale, foreign and malformed ids, missing arguments, broken JSON, wrong JSON types, empty and unknown commands. Client-side session model {file open, live stream ids, live query ids}; after each command exactly one reply frame (ok:/err: naming the command, or the unknown-command notice) within 60 s, replies agree with the model where it is determinate, a final 500 ms quiet period contains no reply, the process is alive and its stderr has no panic. Non-trivial = history with >=1 malformed and >=1 stateful command; distinct = de-duplicated command-kind sequence.",
         "floors": {"quick": {"evaluations": 150, "distinct_nontrivial": 100, "commands": 5000, "closes_while_file_open": 200, "cmd_search_malformed": 100, "cmd_stream-bad_malformed": 100, "cmd_change_window": 150, "sessions_with_commands_during_archive_extraction": 20, "sessions_with_queries_created_while_paused": 15}, "thorough": {"evaluations": 4000, "distinct_nontrivial": 2000}},
         "assumptions": ["ids of queries disappear asynchronously when they are done: for query ids only 'a reply arrives' is checked, not found/not-found", "a reply missing after 60 s on a machine that is otherwise responsive is a violation; failure to start or connect to the server is inconclusive"],
     },
